@@ -191,7 +191,11 @@ func runProxy(c *driver.Ctx, t string, variant int, consumer string, k *kase) *f
 			// a raw consumer is outside the statement: counted only
 			c.Count("note:raw-consumer-never-returns:"+t, 1)
 		} else {
-			return failf(t+": FetchAll never returns ("+why+")", "%s: every goroutine is blocked for ever (the consumer writes into the cache-fill pipe that nobody reads any more)", phase)
+			st := t
+			if variant >= 2 {
+				st = "cas.Proxy(limit>=Size)" // one defect, whatever the slack of the limit
+			}
+			return failf(st+": FetchAll never returns ("+why+")", "%s: every goroutine is blocked for ever (the consumer writes into the cache-fill pipe that nobody reads any more)", phase)
 		}
 	}
 	if !probed {
